@@ -2859,6 +2859,11 @@ impl<'a, const HAS_CR: bool> Parser<'a, HAS_CR> {
             self.maybe_capture_line_comment(self.last_open_bp_pos);
             self.take_pending_head_comment(self.last_open_bp_pos);
             self.skip_to_eol();
+            // Where an empty (null) value node belongs: the end of the key's own
+            // line. Placing it at the next line's first byte made it share that
+            // position with the next key, and a quoted next key (`a:\n'b': 1`) was
+            // then read as this entry's value.
+            let eol_pos = self.pos;
 
             // Look ahead to see what the next content line looks like
             self.skip_newlines();
@@ -2883,6 +2888,7 @@ impl<'a, const HAS_CR: bool> Parser<'a, HAS_CR> {
 
             if next_indent < indent {
                 // Next line is at lower indent - definitely null value
+                self.pos = eol_pos;
                 self.set_ib();
                 self.write_bp_open();
                 self.write_bp_close();
@@ -2892,6 +2898,7 @@ impl<'a, const HAS_CR: bool> Parser<'a, HAS_CR> {
             if next_indent == indent && !is_sequence_indicator {
                 // Next line is at same indent but NOT a sequence - null value
                 // (If it were a sequence, the sequence is the value of this key)
+                self.pos = eol_pos;
                 self.set_ib();
                 self.write_bp_open();
                 self.write_bp_close();
